@@ -2,7 +2,7 @@
 C10 — meta information and `vars` through the file.
 -/
 import Midgard.Proofs.H5Attr
-import Midgard.Proofs.H5RoundTrip
+import Midgard.Proofs.H5R2Fields
 import Midgard.Model.H5Meta
 
 namespace Midgard.H5
@@ -47,13 +47,13 @@ theorem readMeta_writeMeta : ∀ (m : MetaDict) (as : List (String × Attr)), wr
         simp only [readMeta, decode_encode v a ha, readMeta_writeMeta r r' hr]
 
 /-- the whole dataset: fields (through `roundTrip_core`), meta and vars -/
-theorem roundTripM_core (h : Heap) (d : DSM) (lvl : Nat) (hw : Writable h d.ds lvl) (hm : metaOK d.info = true) :
+theorem roundTripM_core (h : Heap) (d : DSM) (lvl : Nat) (hw : WritableS h d.ds lvl) (hm : metaOK d.info = true) :
     ∃ (fm : FileM) (h' : Heap) (φ : Nat → Nat), writeDSM h d lvl = .ok (some fm) ∧
       readBackM h d fm = .ok (h', { ds := { numObs := d.ds.numObs, fields := renameFields φ (restrictFields lvl d.ds.fields) },
                                     info := d.info, vars := d.vars }) ∧
       (∀ x, Reach h (restrictFields lvl d.ds.fields) x → ∃ ob, h[x]? = some ob ∧ h'[φ x]? = some (ob.rename φ)) ∧
       (∀ x y, Reach h (restrictFields lvl d.ds.fields) x → Reach h (restrictFields lvl d.ds.fields) y → φ x = φ y → x = y) := by
-  obtain ⟨file, h', φ, hwr, hrd, himg, hinj⟩ := roundTrip_core h d.ds lvl hw
+  obtain ⟨file, h', φ, hwr, hrd, himg, hinj⟩ := roundTrip_core2 h d.ds lvl hw
   obtain ⟨as, has⟩ := writeMeta_isSome d.info hm
   have hv : encode (.dict d.vars) = some (.tagged "dict" (toAst (.dict d.vars))) := rfl
   refine ⟨{ file := file, metaAttrs := as, vars := .tagged "dict" (toAst (.dict d.vars)) }, h', φ, ?_, ?_, himg, hinj⟩
